@@ -43,10 +43,12 @@ Definition nonce_rfc6979 (msg32 key32 : bytes) (algo16 data : option bytes) (cou
 (* nonce sources available to the harness.
    kind 0: noncefp = NULL (context-aware RFC 6979); kind 1: secp256k1_nonce_function_rfc6979 passed
    explicitly; kind 2: test function "nonce = data32 at the first attempt, the retry counter afterwards" ; kind 3: test function
-   that behaves like kind 2 but returns 0 (fails) when counter == fail_at.
+   that behaves like kind 2 but returns 0 (fails) when counter == fail_at; kind 4: an invalid all-zero nonce at the first attempt,
+   the library's RFC 6979 function with the same counter afterwards.
    Result: None = callback returned 0. *)
 Definition nonce_fn (kind : Z) (msg32 key32 : bytes) (data : option bytes) (counter : nat) : option bytes :=
   if (kind =? 0) || (kind =? 1) then Some (nonce_rfc6979 msg32 key32 None data counter)
+  else if kind =? 4 then Some (if Nat.eqb counter 0 then zeros 32 else nonce_rfc6979 msg32 key32 None data counter)
   else
     let d := match data with Some d => d | None => zeros 33 end in
     let base := be_val (firstn 32 d) in
